@@ -36,6 +36,30 @@ type unit struct {
 	CrashKey string // non-empty: a child crash in vivid code is a violation with this kind
 	HangKind string // non-empty: a test timeout is a violation of this kind (else inconclusive)
 	MaxProcs int    // GOMAXPROCS override (0 = default)
+	// A test may feed two properties (e.g. the mailbox monitor records C01 and C02 facts). Violation kinds are
+	// attributed by prefix: OnlyKinds keeps only matching kinds for this property, SkipKinds drops them.
+	OnlyKinds []string
+	SkipKinds []string
+}
+
+func (u unit) wants(kind string) bool {
+	if os.Getenv("VERIF_ALLKINDS") != "" { // debugging aid: show every monitor's verdict regardless of attribution
+		return true
+	}
+	for _, p := range u.SkipKinds {
+		if strings.HasPrefix(kind, p) {
+			return false
+		}
+	}
+	if len(u.OnlyKinds) == 0 {
+		return true
+	}
+	for _, p := range u.OnlyKinds {
+		if strings.HasPrefix(kind, p) {
+			return true
+		}
+	}
+	return false
 }
 
 type prop struct {
@@ -533,11 +557,20 @@ func run(id, tier, onlyUnit, caseIdx string) int {
 			b, err := os.ReadFile(filepath.Join(outDir, fmt.Sprintf("%s.%d.json", u.Check, s)))
 			ok := err == nil && json.Unmarshal(b, &r) == nil && r.Complete
 			if ok {
+				kept := r.Violations[:0]
 				for i := range r.Violations {
 					r.Violations[i].Check = u.Check
+					if u.wants(r.Violations[i].Kind) {
+						kept = append(kept, r.Violations[i])
+					}
+				}
+				r.Violations = kept
+				for k := range r.ViolCount {
+					if !u.wants(strings.SplitN(k, "|", 2)[0]) {
+						delete(r.ViolCount, k)
+					}
 				}
 				all = append(all, r)
-				// counted-only violations (beyond the 3 kept witnesses) are still violations
 				viols = append(viols, r.Violations...)
 				for _, ic := range r.Inconclusive {
 					inconcl = append(inconcl, u.Check+": "+ic)
